@@ -146,21 +146,20 @@ theorem free_refines (c : Cab) (s : SpecCab) (t0 : Token) (h : Inv c) (r : Refin
         · rw [hd]; exact (lookup_id_le c h t0 o hl).2
         · exact r.deadBound t hd
 
-theorem freeAll_refines (c : Cab) (s : SpecCab) (ts : List Token) (h : Inv c) (r : Refines c s) :
-    Refines (c.freeAll ts) (s.freeAll ts) := by
-  induction ts generalizing c s with
-  | nil => exact r
-  | cons t ts ih => exact ih _ _ (free_inv c t h) (free_refines c s t h r)
-
-theorem step_refines (c : Cab) (s : SpecCab) (op : CabOp) (h : Inv c) (r : Refines c s)
-    (hw : (∃ o, op = .alloc o) → c.lastId < sizeMax) : Refines (c.step op) (specStep c s op) := by
-  cases op with
+theorem act_refines (c : Cab) (s : SpecCab) (a : CbAct) (h : Inv c) (r : Refines c s)
+    (hwr : (c.act a).1.wrapped = false) : Refines (c.act a).1 (specAct c s a) := by
+  have hmono := (act_inv c a h hwr).2
+  cases a with
   | alloc o =>
-      have hw := hw ⟨o, rfl⟩
+      have hne : c.lastId ≠ sizeMax := by
+        intro e
+        have := alloc_wrapped c o
+        simp only [act] at hwr
+        rw [hwr, e] at this; simp at this
+      have hw : c.lastId < sizeMax := by have := h.idMax; omega
       obtain ⟨tok, h1, h2, h3⟩ := lookup_alloc c o h hw
-      have hlast := (alloc_inv c o h hw).2
-      obtain ⟨pos, _, hlast⟩ := hlast
-      simp only [step, specStep, h1]
+      obtain ⟨_, pos, _, hlast⟩ := alloc_inv c o h hw
+      simp only [act, specAct, h1]
       constructor
       · intro t
         rw [h3 t]
@@ -179,7 +178,7 @@ theorem step_refines (c : Cab) (s : SpecCab) (op : CabOp) (h : Inv c) (r : Refin
         have := r.deadBound t hd
         omega
   | update t0 o =>
-      simp only [step, specStep]
+      simp only [act, specAct]
       cases hl : c.lookup t0 with
       | none =>
           have hs : s.lookup t0 = none := by rw [← r.look]; exact hl
@@ -205,7 +204,7 @@ theorem step_refines (c : Cab) (s : SpecCab) (op : CabOp) (h : Inv c) (r : Refin
             simpa [update, hl] using this
   | free t0 => exact free_refines c s t0 h r
   | clear =>
-      simp only [step, specStep]
+      simp only [act, specAct]
       constructor
       · intro t
         rw [lookup_clear]
@@ -219,10 +218,37 @@ theorem step_refines (c : Cab) (s : SpecCab) (op : CabOp) (h : Inv c) (r : Refin
           cases hl : c.lookup t with
           | none => simp [hl] at hd
           | some o => exact (lookup_id_le c h t o hl).2
+
+theorem runActs_refines (c : Cab) (s : SpecCab) (as : List CbAct) (h : Inv c) (r : Refines c s)
+    (hw : (c.runActs as).wrapped = false) : Refines (c.runActs as) (specActs c s as) := by
+  induction as generalizing c s with
+  | nil => exact r
+  | cons a as ih =>
+      have hwa : (c.act a).1.wrapped = false := by
+        cases hx : (c.act a).1.wrapped with
+        | false => rfl
+        | true => have := runActs_wrapped_mono _ as hx; simp only [runActs] at hw; rw [hw] at this; cases this
+      exact ih _ _ (act_inv c a h hwa).1 (act_refines c s a h r hwa) hw
+
+theorem step_refines (c : Cab) (s : SpecCab) (op : CabOp) (h : Inv c) (r : Refines c s)
+    (hw : (c.step op).wrapped = false) : Refines (c.step op) (specStep c s op) := by
+  cases op with
+  | act a => exact act_refines c s a h r hw
   | each f =>
-      simp only [step, specStep]
-      rw [foreach_eq_freeAll]
-      exact freeAll_refines c s _ h r
+      simp only [step, specStep] at hw ⊢
+      rw [foreach_eq_runActs] at hw ⊢
+      exact runActs_refines c s _ h r hw
+
+theorem run_refines (c : Cab) (s : SpecCab) (ops : List CabOp) (h : Inv c) (r : Refines c s)
+    (hw : (c.run ops).wrapped = false) : Refines (c.run ops) (specRun c s ops) := by
+  induction ops generalizing c s with
+  | nil => exact r
+  | cons op ops ih =>
+      have hwa : (c.step op).wrapped = false := by
+        cases hx : (c.step op).wrapped with
+        | false => rfl
+        | true => have := run_wrapped_mono _ ops hx; simp only [run] at hw; rw [hw] at this; cases this
+      exact ih _ _ (step_inv c op h hwa).1 (step_refines c s op h r hwa) hw
 
 end Cab
 end Tbox.C08
